@@ -311,11 +311,45 @@ func H_C13_sections(v *V) {
 	v.Assert(v.EqStr(d.Only1, want.Only1) && v.EqStr(d.Second.Only2, want.Second.Only2) && v.EqStr(d.Cmd.OnlyC, want.Cmd.OnlyC), "every entry is applied to the option of the section it stands in")
 }
 
+type c13Cho struct {
+	Mode string `long:"mode" choice:"a" choice:"bb"`
+	Lvl  int    `long:"lvl" choice:"1" choice:"22"`
+}
+
+// H_C13_choice: an option with declared choices accepts from the INI text
+// exactly what it accepts from the command line (the empty value included).
+func H_C13_choice(v *V) {
+	V := c14Value(v, v.Shape("lv"))
+	which := v.Choice(2)
+	key := []string{"mode", "lvl"}[which]
+	run := func(ini bool) (*c13Cho, error) {
+		d := &c13Cho{}
+		p := NewNamedParser("prog", None)
+		p.AddGroup("Application Options", "", d)
+		if ini {
+			return d, NewIniParser(p).Parse(strings.NewReader(key + " = " + V + "\n"))
+		}
+		_, err := p.ParseArgs([]string{"--" + key + "=" + V})
+		return d, err
+	}
+	a, errA := run(true)
+	b, errB := run(false)
+	vObsErr(v, errA)
+	v.Assert((errA == nil) == (errB == nil), "a value is accepted from the INI text iff the flag accepts it (declared choices apply to both)")
+	if errA == nil && errB == nil {
+		v.Reach("accepted")
+		v.Assert(v.EqStr(a.Mode, b.Mode) && a.Lvl == b.Lvl, "the entry stores the same value as the flag")
+	} else {
+		v.Reach("rejected")
+	}
+}
+
 // H_C14_sections: the same harness decides C14's unknown-option clause.
 func H_C14_sections(v *V) { H_C13_sections(v) }
 
 func init() {
 	vHarnesses["H_C13_sections"] = H_C13_sections
+	vHarnesses["H_C13_choice"] = H_C13_choice
 	vHarnesses["H_C14_sections"] = H_C14_sections
 	vHarnesses["H_C13_value"] = H_C13_value
 	vHarnesses["H_C13_equiv"] = H_C13_equiv
